@@ -42,6 +42,8 @@ let op_of = function
   | Ls [At "incr"; k; d] -> OIncr (n_of_int (num k), z_of_int (num d))
   | Ls [At "pbadd"; k; t] -> OPbAdd (n_of_int (num k), z_of_int (num t))
   | Ls [At "pbhas"; k] -> OPbHas (n_of_int (num k))
+  | Ls [At "check"; k; kpb; d; w; l; t] ->
+      OCheck (n_of_int (num k), n_of_int (num kpb), z_of_int (num d), z_of_int (num w), z_of_int (num l), z_of_int (num t))
   | x -> failwith ("bad op " ^ sexp_to_string x)
 
 let req_of (x : sexp) =
